@@ -126,16 +126,31 @@ func runC10(p *core.Program, r *core.Report) {
 			}
 			// re-entry: one obligation per (method, callee) called with the lock held
 			seen := map[string]bool{}
-			for _, c := range fl.Calls {
+			for _, c := range append(append([]locks.CallSite{}, fl.Calls...), fl.PeerCalls...) {
 				if c.Held == locks.No {
 					continue
 				}
 				cn := c.Callee.Name()
 				key := mname + " -> " + cn
+				if c.Peer != "" {
+					key = mname + " -> " + c.Peer + "." + cn
+				}
 				if seen[key] {
 					continue
 				}
 				seen[key] = true
+				if c.Peer != "" {
+					if path, ok := may[c.Callee]; ok {
+						short := make([]string, len(path))
+						for i, s := range path {
+							short[i] = locks.ShortName(s)
+						}
+						r.Viol("C10.no-reentry", key, p.Pos(c.Pos), "called on another instance of the same type with this instance's mutex held, and "+strings.Join(short, " -> ")+" locks that instance: x."+fl.FI.Obj.Name()+"(x) never returns, and a."+fl.FI.Obj.Name()+"(b) beside b."+fl.FI.Obj.Name()+"(a) can lock each other out")
+					} else {
+						r.OK("C10.no-reentry", key, p.Pos(c.Pos), "callee never acquires a mutex")
+					}
+					continue
+				}
 				if path, ok := may[c.Callee]; ok {
 					short := make([]string, len(path))
 					for i, s := range path {
